@@ -519,7 +519,24 @@ def ob_idmap(ctx, res):
         if sc and not (gid[0].order < sc[0].order):
             res.fail("idmap/%s/order" % name, f2, "channels must be set up after the id is allocated")
             continue
-        res.ok(gid[0], "%s: unknown chromosome -> Err(InvalidChromosome) before get_id / channel setup" % name)
+        # one run per chromosome: sections are written in input order and the index needs them sorted by chromosome id, so a
+        # chromosome that already holds an id (it re-appears after another one) must be refused, not given its old id again
+        seen = [n for n in walk_no_nested_fn(f2.body) if n.k == "if" and n.order < gid[0].order and "return" in up(n["then"]) and "Err(" in up(n["then"])
+                and re.fullmatch(r"(\w+)\.(contains|contains_key)\(&?(\w+)\)", up(strip(n["cond"])))]
+        keyarg = up(strip(gid[0]["args"][0])).lstrip("&")
+        okseen = [n for n in seen if up(strip(strip(n["cond"])["recv"])) == up(strip(gid[0]["recv"])) and up(strip(strip(n["cond"])["args"][0])).lstrip("&") == keyarg]
+        if len(okseen) != 1:
+            res.fail("idmap/%s/second-run" % name, gid[0],
+                     "a chromosome that re-appears after another one (A, B, A with out-of-order chromosomes allowed) gets its old id again: its sections land after B's, "
+                     "the data is no longer sorted by chromosome id, index nodes (span from the first child) no longer cover it and range queries silently miss the later run; "
+                     "it must be refused before get_id")
+            continue
+        res.ok(gid[0], "%s: unknown chromosome -> Err(InvalidChromosome) before get_id / channel setup; chromosome seen before -> Err before get_id" % name)
+    cf = ctx.ast.fn("bigtools/src/utils/idmap.rs", "contains", required=False)
+    if cf is None or not re.fullmatch(r"\{self\.map\.contains_key\((\w+)\)\}", up(cf.body)):
+        res.fail("idmap/contains", fn, "IdMap::contains must report exactly the keys that already hold an id")
+    else:
+        res.ok(cf, "IdMap::contains(key) == map.contains_key(key)")
 
 
 def ob_process_data_positions(ctx, res):
